@@ -48,6 +48,27 @@ func (p Pattern) Glob(cb func(PathInfo) bool) bool {
 		}
 	}
 
+	// A pattern with more than one ** can match the same path in more than one
+	// way, by distributing the slashes differently among the **'s, and glob
+	// finds the path once for each way. Report each path only once.
+	nStarStar := 0
+	for _, seg := range segs {
+		if IsWild1(seg, StarStar) {
+			nStarStar++
+		}
+	}
+	if nStarStar > 1 {
+		seen := make(map[string]struct{})
+		userCb := cb
+		cb = func(info PathInfo) bool {
+			if _, ok := seen[info.Path]; ok {
+				return true
+			}
+			seen[info.Path] = struct{}{}
+			return userCb(info)
+		}
+	}
+
 	return glob(segs, dir, cb)
 }
 
